@@ -7,6 +7,7 @@ from ..formula import Canon, equivalent, parse_expr
 from ..guards import Rejections, returns_true_formula
 from ..loader import AnalysisError, norm, own_nodes, src
 from .. import stridx
+from ..util import calls
 
 LEVEL = "other"
 
@@ -389,6 +390,41 @@ def generable_conj(eng, res, rule="R-GENERABLE-CONJ"):
            f"{len(stores)} store(s) to _generable")
 
 
+# validations that live in a helper are worth something only if the helper runs: (helper, the function that must run it, how)
+REACHED = [
+    ("stochastic.Stochastic._validate", "stochastic.Stochastic.__init__", "every normal exit of the constructor"),
+    ("system._estimate_system_molecular_weight", "system.System.__init__", "every normal exit of the constructor"),
+    ("stochastic.Stochastic.generate.get_start", "stochastic.Stochastic.generate", "every normal exit of generate"),
+    ("core.BigSMILESbase.generate", "stochastic.Stochastic.generate", "every normal exit of generate"),
+    ("core.BigSMILESbase.generate", "token.SmilesToken.generate", "every normal exit of generate"),
+]
+
+
+def guards_reached(eng, res, rule="R-GUARD-REACHED"):
+    """A rejection role held by a helper (R-GUARD-INVENTORY looks inside the helper) rejects anything only if the helper is
+    executed: every path from the entry of the owning constructor / generate to a normal exit passes a call of it."""
+    res.doc(rule, "helpers that hold rejection roles are called on every path to a normal exit of the constructor / generate that relies on them")
+    n = 0
+    for helper_q, owner_q, what in REACHED:
+        owner = eng.prog.func(owner_q)
+        helper = eng.prog.func(helper_q)
+        res.unit(owner)
+        fl = eng.flow(owner)
+        cfg = fl.cfg
+        sites = set()
+        for c in calls(owner):
+            if any(t is helper for t in eng.repo_callees(owner, c)):
+                try:
+                    sites.add(cfg.node_of(c))
+                except AnalysisError:
+                    pass
+        ok = bool(sites) and cfg.must_pass_any(sites, cfg.exit)
+        n += 1
+        res.ob(rule, owner, f"reached:{helper_q.split('.', 1)[-1]}<-{owner_q.split('.', 1)[-1]}", f"{helper.name} (holds rejection roles) runs before {what}", owner.node, ok,
+               ("no call of the helper" if not sites else "a normal exit is reachable without passing the call") + f": the rejections it holds never happen")
+    return n
+
+
 def check(eng, res):
     res.doc("R-GUARD-INVENTORY", "each rejection role: a live raising guard whose path condition is implied by (implies) / equal to (site) the role's predicate, decided by exhaustive valuation of canonical atoms")
     res.doc("R-UNKNOWN-REJECT", "get_distribution cannot end without returning a family instance chosen by a positive name test")
@@ -397,6 +433,8 @@ def check(eng, res):
     roles = list(ROLES) + dist_startswith_roles(eng)
     n = check_roles(eng, res, roles)
     res.floor("R-GUARD-INVENTORY", n, 50)
+    ng = guards_reached(eng, res)
+    res.floor("R-GUARD-REACHED", ng, 5)
     unknown_reject(eng, res)
     nl = cursor_progress(eng, res)
     res.floor("R-CURSOR-PROGRESS", nl, 5)
